@@ -5,6 +5,7 @@ from props.rec_common import *  # noqa: F401,F403
 from props.c01 import canon_rec, canon_datum
 
 ID = "C03"
+LOG_LEVEL_INVARIANT = True      # (harness/vp.py: a sample of the cases again with logging at DEBUG; same observables)
 RUN_MODULE = "RunC03"
 SHARD = 40
 RULE = ("one case = (recorded program P, replayed program P') where P' is P or a behavioural edit of P: changed output argument, "
